@@ -16,7 +16,8 @@ from vf.xmodel import Schema, Rop, build_api, build_loader
 SHARDS = {'quick': 16, 'thorough': 32}
 TIMEOUT = {'quick': 900, 'thorough': 3600}
 MUST_HIT = ['Cell.where_eq-identifier-twin', 'Cell.two-classes', 'Cell.read-all-spellings', 'Cell.serialize', 'Cell.where_eq',
-            'Referential.write-rejected', 'Referential.ctor-keyword', 'Referential.loaded-instance', 'ClassName.spellings']
+            'Referential.write-rejected', 'Referential.ctor-keyword', 'Referential.loaded-instance', 'ClassName.spellings',
+            'Cell.referred-identifier-written']
 MUST_REACH = ['xtuml/meta.py:Class.__getattr__', 'xtuml/meta.py:Class.__setattr__',
               'xtuml/meta.py:Class.__delattr__', 'xtuml/meta.py:MetaModel.find_metaclass',
               'xtuml/meta.py:MetaClass.new', 'xtuml/meta.py:WhereEqual.__call__',
@@ -385,7 +386,7 @@ def random_history(ctx, rng, route, length):
         m = reload(m)
         others = [m.select_one('Othr', xtuml.where_eq(Id=o.Id)) for o in others]
         insts = [m.select_one('Thng', xtuml.where_eq(Keep='k%d' % i)) for i in range(3)]
-    sps = dict(Abc=spellings('Abc'), nUm=spellings('nUm'), Ref=spellings('Ref'))
+    sps = dict(Abc=spellings('Abc'), nUm=spellings('nUm'), Ref=spellings('Ref'), Id=spellings('Id'))
     log = []
     cnt = 0
     for _ in range(length):
@@ -411,6 +412,19 @@ def random_history(ctx, rng, route, length):
                                    'history %r: del #%d.%s raised AttributeError' % (log[-6:], i, sp))
             cell[a] = DELETED
             log.append(('delete', i, sp))
+        elif k < 0.62:
+            # the identifying attribute of a referred instance is written under some spelling: every
+            # referential attribute that follows a link to it reads the new value under every spelling
+            o = rng.randrange(3)
+            sp = rng.choice(sps['Id'])
+            cnt += 1
+            old, new = others[o].Id, 10 ** 6 + cnt
+            setattr(others[o], sp, new)
+            ctx.hit('Cell.referred-identifier-written')
+            for c in cells:
+                if c['Ref'] == old:
+                    c['Ref'] = new
+            log.append(('write-referred-id', o, sp, new))
         elif k < 0.7:
             o = rng.randrange(3)
             if cell['Ref'] is None:
